@@ -774,6 +774,17 @@ def run_tree(case, ctx):
     if case.get("big"):
         cls.add("realistic_magnitudes")
     stmts = case["stmts"] if case["kind"] == "seq" else [case]
+    other = other_before = None
+    if case["kind"] == "seq" and (n + len(stmts)) % 3 == 0 and n >= 1:
+        # two tracks related by a public derivation whose result owns its observations (time-span extraction over
+        # the whole range): the statements run on one of them, the other must stay exactly as it was
+        ts = tr.getTimestamps()
+        sib = M.call(tr.extractSpanTime, min(ts), max(ts))
+        if not M.is_raised(sib) and sib.size() == n and all(a is not b for a, b in zip(sib.getObsList(), tr.getObsList())):
+            if len(stmts) % 2:
+                tr, sib = sib, tr                 # the statements run on the derived track
+            other, other_before = sib, state(sib)
+            cls.add("related_track_must_stay_untouched")
     texts = []
     nt = False
     judged = 0
@@ -803,6 +814,14 @@ def run_tree(case, ctx):
             if len(stmts) > 1:
                 info["statements_so_far"] = list(texts)
             return violated(info, sig, nt, sorted(cls))
+    if other is not None:
+        ctx.monitor("related_track.untouched")
+        after_o = M.call(state, other)
+        p = "unreadable: %r" % (after_o,) if M.is_raised(after_o) else diff_state(other_before, after_o)
+        if p:
+            return violated({"what": "statements evaluated on one track changed (or broke) another track related to it "
+                                     "by a time-span extraction", "problem": p, "statements": list(texts)},
+                            sig, True, sorted(cls))
     if case["kind"] == "seq" and judged >= 2:
         cls.add("sequence_of_statements")
     return held(sig, nt, sorted(cls))
@@ -937,7 +956,7 @@ def classify(case, witness):
 
 # floors for the call-history workloads added in session 3 (a run in which they were silently skipped is inconclusive)
 _floors_base = floors
-_FLOORS_EXTRA = {'classes': {'nan_in_minmax': 500, 'repeated_function_term': 1000, 'externals_dictionary': 500, 'realistic_magnitudes': 800}}
+_FLOORS_EXTRA = {'classes': {'nan_in_minmax': 500, 'repeated_function_term': 1000, 'externals_dictionary': 500, 'realistic_magnitudes': 800, 'related_track_must_stay_untouched': 1000}}
 
 
 def floors(tier):
